@@ -41,6 +41,8 @@ impl<W, R, T> Rt<W, R, T> {
 pub struct StrSrc { pub id: Ghost<int> }
 impl StrSrc { #[verifier::external_body] pub fn into(self) -> (r: String) { unimplemented!() } }
 
+// @@INCLUDE stdx@@
+
 // @@EXTRACTED@@
 
 } // verus!
